@@ -353,6 +353,15 @@ def vjoin(sep, it):
     return SymStr(out).simp()
 
 
+def vmeth(obj, name, *args):
+    """obj.name(*args) where obj may be a plain str and an argument a proxy"""
+    if isinstance(obj, str) and any(isinstance(a, SymStr) for a in args):
+        obj = SymStr.mk(obj)
+    elif isinstance(obj, str) and any(hasattr(type(a), "concrete") for a in args):
+        args = tuple(a.concrete() if hasattr(type(a), "concrete") else a for a in args)
+    return getattr(obj, name)(*args)
+
+
 # ---------------- symbolic regex matcher over sre_parse trees -----------------
 def _isword(ch):
     return ch.isalnum() or ch == "_"
